@@ -499,7 +499,7 @@ func (b *BlockList) persist(s blockSnapshot) {
 	}
 
 	path := filepath.Join(b.cfg.BlockListDir, "local")
-	tmp, err := os.CreateTemp(b.cfg.BlockListDir, "local.tmp.*")
+	tmp, err := os.CreateTemp(b.cfg.BlockListDir, persistTempPrefix+"*")
 	if err != nil {
 		zlog.Warn("Blocklist persist failed: create temp", "dir", b.cfg.BlockListDir, "error", err.Error())
 		return
@@ -547,5 +547,11 @@ func (b *BlockList) persist(s blockSnapshot) {
 
 	b.lastPersisted = s.version
 }
+
+// persistTempPrefix names persist's temp files. Until the rename such a
+// file is not part of the persisted state, and one that outlives its
+// process — a persist interrupted before the rename — never will be: the
+// loader must not read it as a list.
+const persistTempPrefix = "local.tmp."
 
 const name = "blocklist"
